@@ -32,13 +32,13 @@ ASSUMPTIONS = [
 ]
 TRUSTED = ["z3 5.1 (UFLIA)", "vt.dtmodel", "vt.sym explorer", "pycron, pytz (uninterpreted)"]
 BOUNDS = {"now": "unbounded Int us", "timedelta offset": "unbounded Int us", "zones": "1 uninterpreted zone", "expressions": "1 uninterpreted expression", "loops": "none"}
-REQUIRED_COVERS = ["due", "not_due", "none", "td", "zone", "second_evaluation"]
+REQUIRED_COVERS = ["due", "not_due", "none", "td", "zone", "second_evaluation", "model_boundary"]
 
 ZONES = ["Europe/Berlin", "America/New_York", "Australia/Lord_Howe", "Australia/Sydney", "Asia/Kolkata", "Asia/Kathmandu",
          "Pacific/Chatham", "America/St_Johns"]
 
 
-def cases(tier: str) -> List[Any]:
+def cases(tier: str, hname: str = "harness") -> List[Any]:
     return [{"kind": "none"}, {"kind": "td"}, {"kind": "zone"}]
 
 
@@ -112,12 +112,18 @@ def harness(c: sym.Ctx, case: Any) -> None:
             c.check(False, "cron_result_not_0_or_None", result=r)
         return
     # concrete replay on the real function with real pycron / pytz
+    zone = c.assignment.get("zone_name", ZONES[0])
+    earlier = None
+    if dict(c.fixed_choices).get("second_evaluation_in_the_same_process"):
+        earlier = int(c.assignment.get("earlier", int(now)))
+    _concrete(c, kind, int(now), int(td), zone, earlier)
+
+
+def _concrete(c: sym.Ctx, kind: str, now: int, td: int, zone: str, earlier: Any = None) -> None:
+    """the real get_task_delay on a real ScheduledTask (so the model's own validators run), real pycron / pytz, frozen clock"""
     from taskiq.scheduler.scheduled_task import ScheduledTask
 
-    zone = c.assignment.get("zone_name", ZONES[0])
-    now = int(now)
-    if dict(c.fixed_choices).get("second_evaluation_in_the_same_process"):
-        earlier = int(c.assignment.get("earlier", now))
+    if earlier is not None:
         off_e: Any = None
         if kind == "td":
             off_e = real_dt.timedelta(microseconds=int(td))
@@ -150,7 +156,29 @@ def harness(c: sym.Ctx, case: Any) -> None:
         c.event(label, task.cron, "result", r, "expected wall", str(wall))
         if r is not None and r != 0:
             c.check(False, "cron_result_not_0_or_None", result=r)
-        c.check((r == 0) == want_due, "cron_due_iff_match", expr=task.cron, result=r, expected_due=want_due)
+        c.check((r == 0) == want_due, "cron_due_iff_match", expr=task.cron, result=r, expected_due=want_due, now=now, td=td, zone=zone, kind=kind)
+
+
+TD_SAMPLES = [0, 2 * 3600 * US, -3 * 3600 * US, 25 * 3600 * US, -26 * 3600 * US, 90 * MIN, -(5 * 3600 + 45 * 60) * US, 1, -1, 86400 * US, 999_999]
+NOW_SAMPLES = [1_700_000_000 * US + 123, 1_709_251_199 * US + 999_999, 1_711_846_800 * US, 951_782_400 * US + 30 * US]
+
+
+def boundary(c: sym.Ctx, case: Any) -> None:
+    """Model boundary: the symbolic harness hands get_task_delay a duck-typed schedule; here sampled concrete offsets and instants
+    go through the real ScheduledTask model (its validators / normalisation) into the real function."""
+    c.cover("model_boundary")
+    kind = case["kind"]
+    now = NOW_SAMPLES[c.choose(len(NOW_SAMPLES), "now")]
+    if kind == "td":
+        _concrete(c, "td", now, TD_SAMPLES[c.choose(len(TD_SAMPLES), "td")], ZONES[0])
+    elif kind == "zone":
+        zone = ZONES[c.choose(len(ZONES), "zone")]
+        _concrete(c, "zone", now, 0, zone)
+    else:
+        _concrete(c, "none", now, 0, ZONES[0])
+
+
+HARNESSES = {"harness": harness, "boundary": boundary}
 
 
 def _zone_candidates() -> List[Tuple[str, int]]:
@@ -185,7 +213,7 @@ def confirm(f: Dict[str, Any]) -> Tuple[bool, Any]:
             for td in (a.get("td", 0), -3 * 3600 * US, 25 * 3600 * US, -26 * 3600 * US, 90 * MIN, -(5 * 3600 + 45 * 60) * US + 1):
                 tries.append({**a, "now": now, "td": td})
     for a in tries:
-        rep = sym.replay(harness, f["case"], a, f["choices"])
+        rep = sym.replay(boundary if f.get("harness") == "boundary" else harness, f["case"], a, f["choices"])
         labels = [g["label"] for g in rep["failures"]]
         if f["label"] in labels or (labels and f["label"] != "unexpected_exception"):
             return True, {"reproduced": labels[0], "with": a, "events": rep["events"][-6:], "tried": len(tries)}
